@@ -3,7 +3,11 @@ use mc_adapt::roll::*;
 use mc_checks::rollcheck::*;
 use mc_checks::*;
 
-fn classify(_c: &CaseInfo) -> Option<String> {
+fn classify(c: &CaseInfo) -> Option<String> {
+    // F30: ts_vminmaxnorm subtracts in the integer element type
+    if c.f == R1::Minmax && c.ty.contains("i32") && matches!(c.got, Outcome::Panic(m) if m.contains("overflow")) {
+        return Some("F30".into());
+    }
     None
 }
 
